@@ -340,6 +340,13 @@ class Effects:
                     if r is not None and r[0] in ('self', 'param', 'global') and r[2]:
                         s.r((r[0], r[1], self._trim(r[2])), f"{fi.site}:{getattr(st, 'lineno', getattr(n, 'lineno', 0))}")
                 if isinstance(n, ast.Call):
+                    # getattr(self, "x"[, default]) reads self.x
+                    if isinstance(n.func, ast.Name) and n.func.id == "getattr" and len(n.args) >= 2 and \
+                            isinstance(n.args[1], ast.Constant) and isinstance(n.args[1].value, str):
+                        r = self.root_of(n.args[0], fi, fresh)
+                        if r is not None and r[0] in ('self', 'param', 'global'):
+                            s.r((r[0], r[1], self._trim(r[2]) + (n.args[1].value,)),
+                                f"{fi.site}:{getattr(st, 'lineno', getattr(n, 'lineno', 0))}")
                     self._call(fi, n, s, types, fresh, caught, st)
 
     def arg_binding(self, call, callee):
